@@ -92,6 +92,18 @@ CHECKS = {
         "assumptions": A_SIM + ["the bound is tight (N) for a single reset / single loading root; for overlapping resets it is N x live throttles"],
         "parts": [sim(150, 2500), unit("C19-throttle", 3000, 40000)],
     },
+    "C16": {
+        "level": "exploration",
+        "rule": "rapid-generated resource graphs of up to 6 models/collections plus an error leaf and a query resource (shared children, cycles of any length, self references, soft references, nested data values, keys and strings needing JSON escaping), both API encodings, three apiPath prefixes; GET (and HEAD) on drawn resources with everything answered, POST with result / null / resource response; oracle: body parses as JSON and equals an independent recursive reference renderer (path-based cycle cut, error placeholders, data unwrapped, href mapping back to the rid through the reference path decoder), status 200 + Content-Type, HEAD has the same status and headers, POST returns the result verbatim / 204 / Location. Non-trivial = the expansion contains a nested reference; distinct by script hash",
+        "assumptions": A_SIM + ["graphs are static while a request is served"],
+        "parts": [sim(400, 6000)],
+    },
+    "C17": {
+        "level": "exploration",
+        "rule": "rapid-generated HTTP requests (GET/HEAD/POST/PUT/DELETE/PATCH/OPTIONS) against allow-lists of 1-3 origins or *, with and without header authentication and method mappings, Origin headers derived from listed origins (exact, upper/lower case, one byte more or less, non-ASCII look-alike, null, foreign), and auth/access/call answers carrying error codes (all pre-defined plus custom) and meta objects with any of 17 status values and header names in any letter case incl. the protected ones and multi-valued Set-Cookie; oracle: status = table(error code in the body), meta status honoured iff 300-599 and then no later service request, Content-Type / Access-Control-Allow-Origin / -Credentials equal what the configuration implies, no Sec-WebSocket-* header, all Set-Cookie values present, a disallowed origin gets 403 before any service request, OPTIONS always 200 without service request echoing only listed origins. Non-trivial = a meta with a protected header or an origin that is a near miss of a listed one; distinct by script hash",
+        "assumptions": A_SIM + ["allow-lists are printable ASCII origins as the configuration documents"],
+        "parts": [sim(400, 6000)],
+    },
     "C07": {
         "level": "exploration",
         "rule": "rapid stateful generation of request mixes (1-2 connections, subscribe/get/unsubscribe/call/auth/new/ill-formed methods, every outcome and order of the dependent access/get/call answers, events, deletes, revocations), end-of-history epilogue answering everything; oracle: reference client counts responses per id (never two, never unknown, error objects with string code/message) and at quiescence every id on an open connection has exactly one. Non-trivial = >=2 requests for one rid overlapped, or an unsubscribe/unsubscribe event/delete hit a rid with a pending request; distinct by hash of the executed script",
@@ -109,6 +121,10 @@ CHECKS = {
 SIM_NOTE = "trusted: the harness (mock mq, reference client/service, quiescence detector) and rapid; exploration never proves absence; goroutine interleavings inside the gateway are sampled only"
 
 META = {
+    "C16": {"engine": "sim", "design_ref": "6 C16", "technique": "property-based differential testing (rapid): generated resource graphs rendered through the real HTTP handler vs an independent reference renderer",
+            "text": "the hand-written encoders are compared with a reference renderer on generated graphs for both encodings and all path prefixes.", "note": SIM_NOTE},
+    "C17": {"engine": "sim", "design_ref": "6 C17", "technique": "property-based testing (rapid) of generated HTTP requests, service errors and meta objects against the status table and header/CORS rules",
+            "text": "generated origins, metas and error codes through the real handler; status, headers and absence of service traffic are compared with the rules of the statement.", "note": SIM_NOTE},
     "C19": {"engine": "sim", "design_ref": "6 C19", "technique": "scenario-based property testing (rapid) with a step invariant on outstanding governed requests and stall detection at exact quiescence; model-based unit test of Throttle",
             "text": "generated topologies, limits and answer orders; the bound is an invariant checked after every answer, progress is checked as the absence of a stall.", "note": SIM_NOTE},
     "C13": {"engine": "sim", "design_ref": "6 C13", "technique": "stateful property-based testing (rapid) with trace invariants on query/get requests and the convergence and exactly-one-response oracles",
